@@ -14,7 +14,7 @@ from props.calls import enc_all, dec_all, pretty, INT_MAX, ATOM_MAX
 PID = 'C10'
 HARNESS = 'h_c10'
 MODEL_MODULE = 'V.C10.Model'
-READY = False
+READY = True
 RULE = ('cases = input texts: (a) programs (1-4 steps, all directive kinds, empty heads/bodies/aggregates, negative bounds, weights 0, minimize with '
         'negative weights, all values/modifiers, terms with arguments and strings) printed under random atom spellings (a..z, x<n>, x_<n>) and random '
         'layouts (blank/tab/LF/CR/CRLF after tokens, comment lines and stray dots between statements), each program under several layouts; '
